@@ -248,6 +248,31 @@ def run(ctx):
     except KeyError as e:
         ctx.lost("R18.3", str(e))
 
+    # n rounds back: the stored list starts with a placeholder round 0 that nobody submitted, so going back must stay
+    # strictly below the latest round id (n == round_id would return the placeholder)
+    try:
+        pa = arms.Arm(ix, PF, "GetPreviousPrice", entry="query")
+        n_v = pa.msgfield("num_round_back")
+        bad = None
+
+        def strict_guard(fs):
+            for (at, o) in fs:
+                if tag(at) in ("op", "call") and len(kids(at)) == 2:
+                    short = str(payload(at)[0]).split("::")[-1]
+                    l, r = ix.inline(kids(at)[0]), ix.inline(kids(at)[1])
+                    rid = lambda v: tag(v) == "field" and payload(v)[0] == "round_id"
+                    if (l == n_v and rid(r) and ((short == "ge" and o is False) or (short == "lt" and o is True))) or \
+                       (r == n_v and rid(l) and ((short == "le" and o is False) or (short == "gt" and o is True))):
+                        return True
+            return False
+        oks = pa.ok_paths()
+        for q in oks:
+            if not guards.path_satisfies(ix, q, strict_guard, pa.m):
+                bad = bad or "a success path does not establish num_round_back < latest.round_id (going back exactly round_id rounds returns the placeholder round 0 that nobody submitted)"
+        ctx.inst("R18.3", "previous-stays-within-submitted", bad is None and bool(oks), pa.fn.where(), bad or "%d success paths, each with num_round_back < latest.round_id" % len(oks))
+    except KeyError as e:
+        ctx.lost("R18.3", str(e))
+
     # ---------------------------------------------------------------- R18.4
     twaps = []
     for c, nm in ((VAMM, "calc_twap"), (PF, "query_get_twap_price")):
